@@ -146,6 +146,47 @@ def global_state_fingerprint():
           E['concertina_lib'].Concertina.DISPLAY_COUNT]
 
 
+def cpp_cache_dir(scratch=None):
+  """Where the shared library of the C++ parser lives for this check run: a directory made
+  (and removed) by the parent, or a directory inside the caller's scratch."""
+  d = os.environ.get('LSIM_SHARED')
+  if d and os.path.isdir(d):
+    return os.path.join(d, 'cppcache')
+  return os.path.join(scratch, 'cppcache') if scratch else None
+
+
+def ensure_cpp_parser(cache):
+  """Builds liblogica_parse_cpp.so from the tree under test into `cache` (g++, ~10 s, once per
+  check run) in a separate interpreter, never in a simulated process. Returns '' or the reason
+  it is unavailable."""
+  if not cache:
+    return 'no cache directory'
+  code = ('import sys; sys.path.insert(0, %r); from parser_cpp import logica_parse_cpp as m; '
+          'print(m.EnsureCppParserSharedObject())' % core.REPO)
+  try:
+    p = subprocess.run([core.PY, '-c', code], env=core.child_env(0, {'XDG_CACHE_HOME': cache}),
+                       stdout=subprocess.PIPE, stderr=subprocess.PIPE, text=True, timeout=600)
+  except Exception as e:
+    return '%s: %s' % (type(e).__name__, e)
+  if p.returncode != 0 or not os.path.isfile(p.stdout.strip()):
+    return 'build failed: ' + p.stderr[-400:]
+  return ''
+
+
+def prepare(shared, tier):
+  """Called once by the parent before the batches start."""
+  return ensure_cpp_parser(os.path.join(shared, 'cppcache'))
+
+
+def apply_parser_mode(job):
+  """Selects the parser of the simulated process. Only ever called in a process that is
+  about to run exactly one job and exit (a fork of a pristine zygote): the C++ library keeps
+  its own globals, which no reset of Python modules could clear."""
+  if job.get('parser') == 'CPP':
+    os.environ['LOGICA_PARSER'] = 'CPP'
+    os.environ['XDG_CACHE_HOME'] = job['cpp_cache']
+
+
 def run_history_here(case):
   """Executes the operations of `case` in THIS process. Returns list of op records."""
   E = env()
@@ -275,6 +316,7 @@ class Server(object):
 
 
 def serve_job(j):
+  apply_parser_mode(j if j['kind'] == 'compile' else j['case'])
   if j['kind'] == 'compile':
     return do_compile(j['req'], j['pred'])[0]
   return run_history_here(j['case'])
@@ -324,6 +366,9 @@ class Procs(object):
       self.forks += 1
     else:
       self.resets += 1
+    parser = (job if job['kind'] == 'compile' else job['case']).get('parser')
+    if parser == 'CPP' and mode != 'fork':
+      raise RuntimeError('the C++ parser is only ever run in real processes')
     if which == 'same' and mode == 'reset':
       reset_universe()
       return json.loads(json.dumps(serve_job(job)))
@@ -381,9 +426,9 @@ def corpus_requests(files):
 ENGINES = ['sqlite', 'sqlite', 'psql', 'duckdb', 'bigquery']
 
 
-def gen_request(r, scratch, idx):
+def gen_request(r, scratch, idx, kind=None):
   """A generated program (files on disk under scratch) and its compilable predicates."""
-  kind = r.choice(['nonrec', 'nonrec', 'rec', 'rec', 'functor', 'imports', 'imports', 'incant',
+  kind = kind or r.choice(['nonrec', 'nonrec', 'rec', 'rec', 'functor', 'imports', 'imports', 'incant',
                    'needs_incant', 'bad', 'flags', 'dialect_rec', 'typed', 'typed', 'attach_rel',
                    'combine', 'combine'])
   root = None
@@ -544,6 +589,13 @@ def build_pool(r, scratch, files, tier, procs=None):
     if q['kind'] == 'flags':
       # the same text under other user flags is another request; both live in one history
       pool.append(dict(q, flags={'limit': str(r.randint(0, 9)), 'name': r.choice(['n', 'm${limit}'])}))
+  if r.random() < 0.4:
+    # a pool that certainly has a program switching the experimental syntax on and one that
+    # only parses with it
+    kinds = {q['kind'] for q in pool}
+    for want in ('incant', 'needs_incant'):
+      if want not in kinds:
+        pool.append(gen_request(r, scratch, len(pool) + 100, kind=want))
   return pool
 
 
@@ -560,8 +612,10 @@ def make_dirs(scratch):
   return dirs
 
 
-def gen_history(r, pool):
+def gen_history(r, pool, max_ops=None):
   n = r.randint(3, 25 if len(pool) > 16 else 14)
+  if max_ops:
+    n = min(n, r.randint(3, max_ops))
   ops = []
   compiled = []
   for _ in range(n):
@@ -591,6 +645,18 @@ def gen_history(r, pool):
     else:
       ops.append(['compile' if k != 'compile_reuse' else 'compile_reuse', pi, r.choice(preds)])
       compiled.append(pi)
+  # some histories carry the pair "a program that switches on the experimental syntax ... a
+  # program whose parse depends on that switch" when the pool has both
+  inc = [i for i, q in enumerate(pool) if q['kind'] == 'incant']
+  dep = [i for i, q in enumerate(pool) if q['kind'] == 'needs_incant']
+  if inc and dep and r.random() < 0.35:
+    a = r.randrange(len(ops) + 1)
+    ops.insert(a, [r.choice(['compile', 'parse']), r.choice(inc)] )
+    if ops[a][0] == 'compile':
+      ops[a].append(r.choice(pool[ops[a][1]]['preds']))
+    b = r.randrange(a + 1, len(ops) + 1)
+    pj = r.choice(dep)
+    ops.insert(b, ['compile', pj, r.choice(pool[pj]['preds'])])
   return ops
 
 
@@ -643,19 +709,23 @@ class Oracle(object):
   """References per (program, predicate): pristine under the batch hash seed and pristine
   under another hash seed, each in the cheap (reset) or the real (fork) process model."""
 
-  def __init__(self, pool, procs):
+  def __init__(self, pool, procs, cpp_cache=None):
     self.pool = pool
     self.procs = procs
+    self.cpp_cache = cpp_cache
     self.memo = {}
 
   def req(self, pi):
     q = self.pool[pi]
     return {'main': q['main'], 'root': q['root'], 'cwd': q['cwd'], 'flags': q['flags']}
 
-  def pristine(self, which, mode, pi, pred):
-    k = (which, mode, pi, pred)
+  def pristine(self, which, mode, pi, pred, parser=None):
+    k = (which, mode, pi, pred, parser)
     if k not in self.memo:
-      self.memo[k] = self.procs.run(which, mode, {'kind': 'compile', 'req': self.req(pi), 'pred': pred})
+      job = {'kind': 'compile', 'req': self.req(pi), 'pred': pred}
+      if parser == 'CPP':
+        job.update(parser='CPP', cpp_cache=self.cpp_cache)
+      self.memo[k] = self.procs.run(which, mode, job)
     return self.memo[k]
 
 
@@ -667,9 +737,10 @@ def check_history(case, result, oracle, mode, S=None):
       continue
     pi, pred = rec['request']
     got = rec['result']
-    ref_same = oracle.pristine('same', mode, pi, pred)
-    ref_other = oracle.pristine('other', mode, pi, pred)
-    kind = feature_key(pool[pi])
+    parser = case.get('parser')
+    ref_same = oracle.pristine('same', mode, pi, pred, parser)
+    ref_other = oracle.pristine('other', mode, pi, pred, parser)
+    kind = feature_key(pool[pi]) + (':cpp-parser' if parser == 'CPP' else '')
     # hash-seed clause: two pristine processes, different hash seeds
     if comparable(ref_same) != comparable(ref_other):
       vs.append({'class': 'hashseed-dependence', 'key': kind,
@@ -689,6 +760,8 @@ def check_history(case, result, oracle, mode, S=None):
                      describe(pool[pi]), pred, brief_ops(case, rec), first_difference(got, ref_same)),
                  'request': [pi, pred]})
     elif S is not None:
+      if parser == 'CPP':
+        S.probes['cpp_parser_history_compared'] += 1
       if rec.get('second_on_same_program'):
         S.probes['second_FormattedPredicateSql_on_same_program_compared'] += 1
       if rec.get('reused'):
@@ -755,9 +828,16 @@ def run_case(case, scratch):
   env()
   pool = materialise(case, scratch)
   case = dict(case, programs=pool, dirs=make_dirs(scratch))
+  cache = None
+  if case.get('parser') == 'CPP':
+    cache = cpp_cache_dir(scratch)
+    why = ensure_cpp_parser(cache)
+    if why:
+      raise RuntimeError('C++ parser unavailable: ' + why)
+    case['cpp_cache'] = cache
   procs = Procs(case['hashseed'], case['ref_hashseed'], local_is_pristine_zygote=True)
   try:
-    oracle = Oracle(pool, procs)
+    oracle = Oracle(pool, procs, cache)
     result = procs.run('same', 'fork', {'kind': 'history', 'case': case})
     return [{k: v[k] for k in ('class', 'key', 'message')}
             for v in check_history(case, result, oracle, 'fork')]
@@ -777,7 +857,7 @@ def shrink(case):
 def plan(tier):
   if tier == 'quick':
     return {'batches': 16, 'timeout': 900, 'histories': 8, 'wall_budget_s': 300}
-  return {'batches': 480, 'timeout': 2400, 'histories': 20, 'wall_budget_s': 1500}
+  return {'batches': 480, 'timeout': 2400, 'histories': 20, 'wall_budget_s': 1500, 'cpp_ops': 12}
 
 
 def run_batch(seed, batch, tier, scratch):
@@ -796,22 +876,34 @@ def run_batch(seed, batch, tier, scratch):
   try:
     pool = build_pool(r, scratch, files, tier, procs)
     dirs = make_dirs(scratch)
-    oracle = Oracle(pool, procs)
+    cache = cpp_cache_dir()
+    cpp_on = bool(cache) and os.path.isdir(cache) and (tier != 'quick' or batch % 2 == 0)
+    if not cpp_on and not (cache and os.path.isdir(cache)):
+      S.counters['cpp_parser_unavailable'] += 1
+    oracle = Oracle(pool, procs, cache)
     sweep_ops = []
     for pi, q in enumerate(pool):
       for p in q['preds'][:2]:
         sweep_ops.append(['compile', pi, p])
-    for i in range(pl['histories'] + 1):
+    for i in range(pl['histories'] + 1 + (1 if cpp_on else 0)):
       rr = core.rng(seed, PROPERTY, batch, 'hist', i)
+      is_cpp = i == pl['histories'] + 1
       if i == 0:
         # degenerate histories: one compile per process = the pure hash-seed sweep
         histories = [[op] for op in sweep_ops]
+      elif is_cpp:
+        # one history per batch in a process that parses with the C++ parser (LOGICA_PARSER=CPP);
+        # real processes only, references from pristine processes in the same parser mode
+        histories = [gen_history(rr, pool, max_ops=pl.get('cpp_ops', 7))]
       else:
         histories = [gen_history(rr, pool)]
       # the first real history of every batch runs with real processes throughout
-      mode = 'fork' if i == 1 else 'reset'
+      mode = 'fork' if i == 1 or is_cpp else 'reset'
       for ops in histories:
         case = {'hashseed': hashseed, 'ref_hashseed': ref_hashseed, 'ops': ops, 'programs': pool, 'dirs': dirs}
+        if is_cpp:
+          case.update(parser='CPP', cpp_cache=cache)
+          S.counters['parser:CPP histories'] += 1
         if i == 0:
           op = ops[0]
           result = {'records': [{'op': op, 'result': oracle.pristine('same', 'reset', op[1], op[2]),
@@ -828,7 +920,7 @@ def run_batch(seed, batch, tier, scratch):
           if not vs_f:
             S.probes['cheap_model_disagreement_not_confirmed_by_real_processes'] += 1
           vs = vs_f
-        elif mode == 'fork' and i:
+        elif mode == 'fork' and i and not is_cpp:
           # cross-validate the cheap model on this history
           result_r = procs.run('same', 'reset', {'kind': 'history', 'case': case})
           a = [core.digest(x.get('result')) for x in result['records']]
@@ -883,6 +975,8 @@ def run_batch(seed, batch, tier, scratch):
             v.pop('request')
             v['case'] = {'hashseed': hashseed, 'ref_hashseed': ref_hashseed, 'ops': ops,
                          'programs': freeze_programs(pool, used), 'dirs': 'materialise'}
+            if is_cpp:
+              v['case']['parser'] = 'CPP'
             S.violations.append(v)
     S.counters['real_process_forks'] = procs.forks
     S.counters['module_universe_resets'] = procs.resets
@@ -903,7 +997,7 @@ def evidence_meta(tier):
                'CompileReusingRules(P, pred) (same parsed-rules object as an earlier operation), SqlAgain (second '
                'FormattedPredicateSql on the same LogicaProgram), ClockJump, ChangeDirectory (to one of three directories, two of which hold a file people.db), SetEnvironmentVariable; failing programs (ParsingException, '
                'RuleCompileException, FunctorError, TypeErrorCaughtException raised part-way through the pipeline) are '
-               'ordinary members of the program pool. Pool per batch: 6 (thorough 10) corpus files from integration_tests/** and '
+               'ordinary members of the program pool. In every second batch (thorough: every batch) one more history of 3-7 (12) operations runs in a process that parses with the C++ parser (LOGICA_PARSER=CPP, the shared library built once per check run from the tree under test): real processes only (the library keeps its own globals), references from pristine processes in the same parser mode under both hash seeds. Pool per batch: 6 (thorough 10) corpus files from integration_tests/** and '
                'type_inference/research/integration_tests with up to 3 predicates each, plus 8 (14) generated programs: '
                'non-recursive and recursive (all unfolding modes, iterative, DuckDB diamond / -1 depth) in several dialects, functor chains, import '
                'trees (chain, diamond, equal base names, alias, a file defining P and <Prefix>_P), flags, programs with the experimental-syntax incantation, '
@@ -915,12 +1009,12 @@ def evidence_meta(tier):
       'sim_time_unit': 'simulated seconds of clock jumps',
       'components': {
           'real': ['parser_py/parse.py', 'compiler/* for all dialects (universe, functors, rule_translate, expr_translate, dialects, recursion_library)',
-                   'type_inference/research/infer.py'],
+                   'type_inference/research/infer.py', 'parser_cpp/logica_parse.cpp + logica_parse_cpp.py (LOGICA_PARSER=CPP histories, real processes)'],
           'stub': ['recursion_library.time -> simulated clock', 'the import file system is a real scratch directory',
                    'process boundary: fork of a pristine zygote / reset of the module universe; separate interpreters with another PYTHONHASHSEED as reference servers'],
-          'not_run': ['C++ parser mode (LOGICA_PARSER=CPP)', 'execution of the SQL (compilation only)']},
+          'not_run': ['execution of the SQL (compilation only)', 'comparison of the C++ parser with the Python parser (that is C06, not claimed): C++-mode results are only compared with C++-mode references']},
       'expected_probes': ['second_FormattedPredicateSql_on_same_program_compared', 'rules_object_reused_compared',
-                          'compile_after_a_program_that_switched_on_experimental_syntax', 'syntax_sensitive_program_compiled_after_incantation_program', 'stop_file_name_seen_after_clock_jump', 'cheap_model_cross_validated'],
+                          'compile_after_a_program_that_switched_on_experimental_syntax', 'syntax_sensitive_program_compiled_after_incantation_program', 'stop_file_name_seen_after_clock_jump', 'cheap_model_cross_validated', 'cpp_parser_history_compared'],
       'assumptions': [
           'the trivial reference model: output is a function of (program text, import tree, flags) only',
           'the cheap process model resets only state kept in the repository\'s own modules; state kept elsewhere (os.environ, stdlib caches) is only reset in the real-process runs',
